@@ -714,7 +714,15 @@ reprocess:
 	return (location);
 }
 
-#define MINI_FORMAT_STR_LEN 20
+#define MINI_FORMAT_STR_LEN 64
+
+/* collect one more character of the directive; over-long (repeated flags,
+ * zero-padded widths) ones are cut short rather than overflowing */
+#define MINI_FORMAT_ADD(_ch_) do {				\
+	if (fmt_pos < MINI_FORMAT_STR_LEN - 3) {		\
+		fmt[fmt_pos++] = (_ch_);			\
+	}							\
+} while (0)
 
 size_t
 qb_vsnprintf_deserialize(char *string, size_t str_len, const char *buf)
@@ -735,14 +743,27 @@ qb_vsnprintf_deserialize(char *string, size_t str_len, const char *buf)
 	for (;;) {
 		type_long = QB_FALSE;
 		type_longlong = QB_FALSE;
+		if (location >= str_len) {
+			/* the text so far filled the buffer (snprintf
+			 * reports the length it would have needed) */
+			string[str_len - 1] = '\0';
+			return str_len;
+		}
 		p = strchrnul((const char *)format, '%');
 		if (*p == '\0') {
 			return my_strlcat(string, format, str_len) + 1;
 		}
 		/* copy from current to the next % */
 		len = p - format;
+		if (location + len >= str_len) {
+			len = str_len - location - 1;
+			memcpy(&string[location], format, len);
+			string[location + len] = '\0';
+			return str_len;
+		}
 		memcpy(&string[location], format, len);
 		location += len;
+		string[location] = '\0';
 		format = p;
 
 		/* start building up the format for snprintf */
@@ -768,22 +789,25 @@ reprocess:
 		case '7': /* field width, ignore */
 		case '8': /* field width, ignore */
 		case '9': /* field width, ignore */
-			fmt[fmt_pos++] = *format;
+			MINI_FORMAT_ADD(*format);
 			format++;
 			goto reprocess;
 
 		case '*': {
 			int arg_int;
+			char num[16];
+			char *n;
 			memcpy(&arg_int, &buf[data_pos], sizeof(int));
 			data_pos += sizeof(int);
-			fmt_pos += snprintf(&fmt[fmt_pos],
-					   MINI_FORMAT_STR_LEN - fmt_pos,
-					   "%d", arg_int);
+			snprintf(num, sizeof(num), "%d", arg_int);
+			for (n = num; *n; n++) {
+				MINI_FORMAT_ADD(*n);
+			}
 			format++;
 			goto reprocess;
 		}
 		case 'l':
-			fmt[fmt_pos++] = *format;
+			MINI_FORMAT_ADD(*format);
 			format++;
 			type_long = QB_TRUE;
 			if (*format == 'l') {
@@ -792,7 +816,7 @@ reprocess:
 			}
 			goto reprocess;
 		case 'z':
-			fmt[fmt_pos++] = *format;
+			MINI_FORMAT_ADD(*format);
 			format++;
 			if (sizeof(size_t) == sizeof(long long)) {
 				type_long = QB_FALSE;
@@ -803,7 +827,7 @@ reprocess:
 			}
 			goto reprocess;
 		case 't':
-			fmt[fmt_pos++] = *format;
+			MINI_FORMAT_ADD(*format);
 			format++;
 			if (sizeof(ptrdiff_t) == sizeof(long long)) {
 				type_longlong = QB_TRUE;
@@ -812,7 +836,7 @@ reprocess:
 			}
 			goto reprocess;
 		case 'j':
-			fmt[fmt_pos++] = *format;
+			MINI_FORMAT_ADD(*format);
 			format++;
 			if (sizeof(intmax_t) == sizeof(long long)) {
 				type_longlong = QB_TRUE;
@@ -927,6 +951,9 @@ reprocess:
 			}
 		case '%':
 			string[location++] = '%';
+			if (location < str_len) {
+				string[location] = '\0';
+			}
 			format++;
 			break;
 
